@@ -210,31 +210,37 @@ def k_mle(ctx, c, cmin):
                 ctx.violation(f"powerlaw_mle_alpha:{method}:wrong", f"not the documented closed form over the {n} counts >= cmin", out.value, want)
     # exact: maximiser of the discrete likelihood within its bounds
     if n >= 2 and isinstance(cmin, int) and max(kept) > cmin:
-        lo, hi = 1.5, 4.5
-        out = ctx.call(prs.powerlaw_mle_alpha, np.array(c), cmin=cmin, method="exact")
-        ctx.count("mle_exact_cases")
-        if not out.ok:
-            ctx.violation("powerlaw_mle_alpha:exact:raised", "raised", out.describe(), None)
-            return
-        a = float(out.value)
-        if not (lo - 1e-9 <= a <= hi + 1e-9):
-            ctx.violation("powerlaw_mle_alpha:exact:out-of-bounds", "estimate outside the documented bounds [1.5, 4.5]", a, [lo, hi])
-            return
-        slog = sum(math.log(x) for x in kept)
-
-        def ll(al):
-            return -n * math.log(_hzeta(al, cmin, 1500)) - al * slog
-        best = ll(a)
-        # the bounded scalar optimiser stops within ~1e-5 of the optimum: allow the likelihood change over 1e-4 around the answer
-        slack = max(abs(ll(min(hi, a + 1e-4)) - best), abs(ll(max(lo, a - 1e-4)) - best)) + 1e-7 * max(1.0, abs(best))
-        step = (hi - lo) / 1999
-        for i in range(2000):
-            g = lo + i * step
-            v = ll(g)
-            if v > best + slack:
-                ctx.violation("powerlaw_mle_alpha:exact:not-a-maximiser", f"alpha={g:.4f} has a higher discrete log-likelihood than the returned {a:.4f}",
-                              {"returned": a, "loglik": best}, {"alpha": g, "loglik": v})
+        # documented default bounds, then bounds given by the caller (forwarded keyword): the answer is a maximiser within *those*
+        given = [(1.2, 2.0), (2.0, 3.0), (1.5, 6.0), (3.0, 4.0)][(len(c) + int(cmin)) % 4]
+        for tag, (lo, hi), kw in (("default-bounds", (1.5, 4.5), {}), ("given-bounds", given, {"bounds": list(given)})):
+            out = ctx.call(prs.powerlaw_mle_alpha, np.array(c), cmin=cmin, method="exact", **kw)
+            ctx.count("mle_exact_cases")
+            if kw:
+                ctx.count("mle_exact_given_bounds")
+            key = "powerlaw_mle_alpha:exact" if not kw else "powerlaw_mle_alpha:exact:given-bounds"
+            if not out.ok:
+                ctx.violation(f"{key}:raised", "raised", out.describe(), None)
                 return
+            a = float(out.value)
+            if not (lo - 1e-9 <= a <= hi + 1e-9):
+                ctx.violation(f"{key}:out-of-bounds", f"estimate outside the bounds [{lo}, {hi}] in force ({tag})", a, [lo, hi])
+                return
+            slog = sum(math.log(x) for x in kept)
+
+            def ll(al):
+                return -n * math.log(_hzeta(al, cmin, 1500)) - al * slog
+            best = ll(a)
+            # the bounded scalar optimiser stops within ~1e-5 of the optimum: allow the likelihood change over 1e-4 around the answer
+            slack = max(abs(ll(min(hi, a + 1e-4)) - best), abs(ll(max(lo, a - 1e-4)) - best)) + 1e-7 * max(1.0, abs(best))
+            npts = 2000 if not kw else 600
+            step = (hi - lo) / (npts - 1)
+            for i in range(npts):
+                g = lo + i * step
+                v = ll(g)
+                if v > best + slack:
+                    ctx.violation(f"{key}:not-a-maximiser", f"alpha={g:.4f} (inside the bounds [{lo}, {hi}], {tag}) has a higher discrete log-likelihood than the returned {a:.4f}",
+                                  {"returned": a, "loglik": best}, {"alpha": g, "loglik": v})
+                    return
     wrong = ctx.call(prs.powerlaw_mle_alpha, list(c), cmin=cmin, method="nosuchmethod")
     if wrong.ok:
         ctx.violation("powerlaw_mle_alpha:unknown-method-accepted", "unknown method accepted", wrong.value, "ValueError")
